@@ -22,6 +22,9 @@
                    a resulting adjust is in the receiver's hand (abox)
      OEmitAdj i    R: the i-th adjust in hand is passed to transport._send_user_message
      ODeliverAdj   S: the transport thread dispatches the oldest WINDOW_ADJUST to _window_adjust
+     OCombine b    R: set_combine_stderr(b)
+     OShutW        S: shutdown_write() on the sender's channel (half-close: its own sends stop; the
+                   receiver half of that same channel object belongs to the opposite direction)
    An arbitrary op list is an arbitrary interleaving of any number of sending / receiving threads. *)
 From Coq Require Import ZArith List Bool Lia.
 From PV Require Import Bytes C19_gen.
@@ -64,7 +67,9 @@ Record st := mkS {
   g_grant : Z;           (* total of adjusts computed by the receiver *)
   g_cons : Z;            (* total bytes returned to the application by recv / recv_stderr *)
   g_disc : Z;            (* total bytes of discarded extended data *)
-  g_lost : Z             (* ... of which never counted toward in_window_sofar *)
+  g_lost : Z;            (* ... of which never counted toward in_window_sofar *)
+  (* half-close *)
+  eof : bool             (* the SENDER's channel has eof_sent set (it called shutdown_write) *)
 }.
 
 Inductive op :=
@@ -73,7 +78,9 @@ Inductive op :=
   | ODeliver
   | ORecv (err : bool) (n : Z)
   | OEmitAdj (i : nat)
-  | ODeliverAdj.
+  | ODeliverAdj
+  | OCombine (b : bool)
+  | OShutW.
 
 (* initial state after _set_window(W, _) on the receiver and _set_remote_channel(_, W0, P) on the
    sender (dmp = the transport's default_max_packet_size, unused because P is given) *)
@@ -82,7 +89,7 @@ Definition init (W0 P W dmp : Z) (combine : bool) : st :=
       [] []
       (set_window_in_window_size W 0) (set_window_in_window_threshold W 0) (set_window_in_window_sofar W 0)
       combine 0 0 []
-      0 [] 0 0 0 0 0.
+      0 [] 0 0 0 0 0 false.
 
 (* receiver: _check_add_window(n) followed by `if ack > 0: send WINDOW_ADJUST(ack)`;
    returns (in_window_sofar, abox, g_grant) *)
@@ -99,23 +106,24 @@ Definition ETIMEOUT : Z := -1. (* socket.timeout *)
 Definition step (s : st) (o : op) : st * Z :=
   match o with
   | OSend k n =>
-      if send_must_wait (ow s) then (s, ETIMEOUT)
+      if eof s then (s, 0)                        (* _wait_for_send_window: closed or eof_sent -> 0 *)
+      else if send_must_wait (ow s) then (s, ETIMEOUT)
       else
         let '(size, ow') := send_alloc (ow s) (omp s) n in
         if send_nothing size then
           (mkS ow' (omp s) (obox s) (dwire s) (awire s) (inw s) (thr s) (sofar s) (comb s) (bout s) (berr s)
-               (abox s) (g_res s + size) (elog s) (g_adjin s) (g_grant s) (g_cons s) (g_disc s) (g_lost s), 0)
+               (abox s) (g_res s + size) (elog s) (g_adjin s) (g_grant s) (g_cons s) (g_disc s) (g_lost s) (eof s), 0)
         else
           (mkS ow' (omp s) (obox s ++ [mk_msg k size]) (dwire s) (awire s) (inw s) (thr s) (sofar s) (comb s)
                (bout s) (berr s) (abox s) (g_res s + size) (elog s) (g_adjin s) (g_grant s) (g_cons s)
-               (g_disc s) (g_lost s), size)
+               (g_disc s) (g_lost s) (eof s), size)
   | OEmit i =>
       match nth_error (obox s) i with
       | None => (s, ENOT)
       | Some m =>
           (mkS (ow s) (omp s) (remove_nth i (obox s)) (dwire s ++ [m]) (awire s) (inw s) (thr s) (sofar s)
                (comb s) (bout s) (berr s) (abox s) (g_res s) (m :: elog s) (g_adjin s) (g_grant s) (g_cons s)
-               (g_disc s) (g_lost s), 0)
+               (g_disc s) (g_lost s) (eof s), 0)
       end
   | ODeliver =>
       match dwire s with
@@ -123,7 +131,7 @@ Definition step (s : st) (o : op) : st * Z :=
       | m :: r =>
           let to_out l :=
             (mkS (ow s) (omp s) (obox s) r (awire s) (inw s) (thr s) (sofar s) (comb s) (bout s + l) (berr s)
-                 (abox s) (g_res s) (elog s) (g_adjin s) (g_grant s) (g_cons s) (g_disc s) (g_lost s), 0) in
+                 (abox s) (g_res s) (elog s) (g_adjin s) (g_grant s) (g_cons s) (g_disc s) (g_lost s) (eof s), 0) in
           match m with
           | MData l => to_out l                                   (* _feed *)
           | MExt c l =>                                           (* _feed_extended *)
@@ -131,15 +139,15 @@ Definition step (s : st) (o : op) : st * Z :=
                 if ext_discard_credits then
                   let '(sf, ab, gr) := credit s l in
                   (mkS (ow s) (omp s) (obox s) r (awire s) (inw s) (thr s) sf (comb s) (bout s) (berr s)
-                       ab (g_res s) (elog s) (g_adjin s) gr (g_cons s) (g_disc s + l) (g_lost s), 0)
+                       ab (g_res s) (elog s) (g_adjin s) gr (g_cons s) (g_disc s + l) (g_lost s) (eof s), 0)
                 else
                   (mkS (ow s) (omp s) (obox s) r (awire s) (inw s) (thr s) (sofar s) (comb s) (bout s) (berr s)
                        (abox s) (g_res s) (elog s) (g_adjin s) (g_grant s) (g_cons s) (g_disc s + l)
-                       (g_lost s + l), 0)
+                       (g_lost s + l) (eof s), 0)
               else if comb s then to_out l
               else
                 (mkS (ow s) (omp s) (obox s) r (awire s) (inw s) (thr s) (sofar s) (comb s) (bout s) (berr s + l)
-                     (abox s) (g_res s) (elog s) (g_adjin s) (g_grant s) (g_cons s) (g_disc s) (g_lost s), 0)
+                     (abox s) (g_res s) (elog s) (g_adjin s) (g_grant s) (g_cons s) (g_disc s) (g_lost s) (eof s), 0)
           end
       end
   | ORecv err n =>
@@ -150,14 +158,14 @@ Definition step (s : st) (o : op) : st * Z :=
         let '(sf, ab, gr) := credit s out in
         (mkS (ow s) (omp s) (obox s) (dwire s) (awire s) (inw s) (thr s) sf (comb s)
              (if err then bout s else bout s - out) (if err then berr s - out else berr s)
-             ab (g_res s) (elog s) (g_adjin s) gr (g_cons s + out) (g_disc s) (g_lost s), out)
+             ab (g_res s) (elog s) (g_adjin s) gr (g_cons s + out) (g_disc s) (g_lost s) (eof s), out)
   | OEmitAdj i =>
       match nth_error (abox s) i with
       | None => (s, ENOT)
       | Some a =>
           (mkS (ow s) (omp s) (obox s) (dwire s) (awire s ++ [a]) (inw s) (thr s) (sofar s) (comb s) (bout s)
                (berr s) (remove_nth i (abox s)) (g_res s) (elog s) (g_adjin s) (g_grant s) (g_cons s)
-               (g_disc s) (g_lost s), 0)
+               (g_disc s) (g_lost s) (eof s), 0)
       end
   | ODeliverAdj =>
       match awire s with
@@ -165,8 +173,21 @@ Definition step (s : st) (o : op) : st * Z :=
       | a :: r =>
           (mkS (window_adjust (ow s) a) (omp s) (obox s) (dwire s) r (inw s) (thr s) (sofar s) (comb s) (bout s)
                (berr s) (abox s) (g_res s) (elog s) (g_adjin s + a) (g_grant s) (g_cons s) (g_disc s)
-               (g_lost s), 0)
+               (g_lost s) (eof s), 0)
       end
+  | OCombine b =>
+      (* set_combine_stderr(b) on the receiver: when switching on, the unread stderr buffer is moved
+         into the stdout buffer; in_window_sofar is not touched *)
+      let move := combine_moves b (comb s) in
+      (mkS (ow s) (omp s) (obox s) (dwire s) (awire s) (inw s) (thr s) (sofar s) b
+           (if move then bout s + berr s else bout s) (if move then 0 else berr s)
+           (abox s) (g_res s) (elog s) (g_adjin s) (g_grant s) (g_cons s) (g_disc s) (g_lost s) (eof s),
+       if comb s then 1 else 0)
+  | OShutW =>
+      (* shutdown_write() on the sender's channel: eof_sent; its receiver half (the other direction)
+         is not affected -- reads there keep being credited *)
+      (mkS (ow s) (omp s) (obox s) (dwire s) (awire s) (inw s) (thr s) (sofar s) (comb s) (bout s) (berr s)
+           (abox s) (g_res s) (elog s) (g_adjin s) (g_grant s) (g_cons s) (g_disc s) (g_lost s) true, 0)
   end.
 
 Fixpoint run (s : st) (ops : list op) : st :=
@@ -196,7 +217,7 @@ Definition enc_msg (m : dmsg) : list Z :=
   match m with MData l => [94; 0; l] | MExt c l => [95; c; l] end.
 
 Definition digest (s : st) : list Z :=
-  [ow s; omp s; inw s; thr s; sofar s; bout s; berr s] ++ [-11] ++ flat_map enc_msg (obox s)
+  [ow s; omp s; inw s; thr s; sofar s; bout s; berr s; if comb s then 1 else 0; if eof s then 1 else 0] ++ [-11] ++ flat_map enc_msg (obox s)
   ++ [-12] ++ flat_map enc_msg (dwire s) ++ [-13] ++ abox s ++ [-14] ++ awire s.
 
 (* a history over a pair of channels A, B: direction false = data A -> B, true = data B -> A *)
